@@ -147,17 +147,27 @@ func c08Doc(c *Ctx, text string, g bool) map[string]any {
 	// inputs of the diagnostic range construction, taken from the real parser/analyzer/loader
 	journal, perrs := parser.Parse(text)
 	diagIn := [][]int{}
-	res := analyzer.New().Analyze(journal)
-	for _, d := range res.Diagnostics {
-		diagIn = append(diagIn, rngJ(d.Range))
-	}
 	loadIn := [][]int{}
-	_, lerrs := include.NewLoader().LoadFromContent(path, text)
+	resolved, lerrs := include.NewLoader().LoadFromContent(path, text)
 	for _, e := range lerrs {
 		if e.Kind == include.ErrorParseError {
 			continue
 		}
 		loadIn = append(loadIn, rngJ(e.Range))
+	}
+	// as analyzeResolved does without a workspace
+	external := analyzer.ExternalDeclarations{}
+	if resolved != nil {
+		external = analyzer.MergeDeclarations(analyzer.DeclarationsFromResolved(resolved), external)
+	}
+	var res *analyzer.AnalysisResult
+	if external.Accounts != nil || external.Commodities != nil {
+		res = analyzer.New().AnalyzeWithExternalDeclarations(journal, external)
+	} else {
+		res = analyzer.New().Analyze(journal)
+	}
+	for _, d := range res.Diagnostics {
+		diagIn = append(diagIn, rngJ(d.Range))
 	}
 
 	impl := map[string]any{}
